@@ -264,6 +264,17 @@ def _wrap_for_decor():
 
 _wrap_for_decor()
 
+def _profile_text_correspondence():
+    """profile_graph (Props/C04.v: C04_profile_json_total_iff, C04_profile_json_errors): the profile runs of the
+    stream -- and one more on the cases that had none, shape-map cases included -- are compared BYTE FOR BYTE with
+    Model.RunProfile.run_profile_json (string and file sink); every figure of the text is recounted from the triples."""
+    from vp import pipeprofile
+    pipeprofile.attach(Spec, every=2)
+    Spec.theorems += ", C04_profile_json_total_iff, C04_profile_json_errors (Props/C04.v)"
+
+
+_profile_text_correspondence()
+
 
 def run(tier, seed, replay=None):
     return pipeprops.run_property(Spec(), tier, seed, replay)
